@@ -102,19 +102,19 @@ func evalIota(f *file, e ast.Expr, iota int64) int64 {
 
 // execInfo: positions of the structural elements of an Execute body.
 type execInfo struct {
-	f        *file
-	recv     string // receiver name
-	fd       *ast.FuncDecl
-	lockPos  []token.Pos
-	unlockPos []token.Pos
+	f           *file
+	recv        string // receiver name
+	fd          *ast.FuncDecl
+	lockPos     []token.Pos
+	unlockPos   []token.Pos
 	deferUnlock bool
-	assigns  []fieldAssign // assignments to receiver fields, source order
-	ret      *ast.ReturnStmt
+	assigns     []fieldAssign // assignments to receiver fields, source order
+	ret         *ast.ReturnStmt
 }
 
 type fieldAssign struct {
 	field string
-	rhs   ast.Expr // nil for a tuple assignment from one call
+	rhs   ast.Expr      // nil for a tuple assignment from one call
 	call  *ast.CallExpr // the call for tuple assignments x.a, b = call()
 	idx   int
 	pos   token.Pos
@@ -886,31 +886,46 @@ func genIsolated(o *out) {
 		usesSwap = true
 		i = 1
 	} else {
-		c, ok := ifs.Cond.(*ast.CallExpr)
-		if !ok {
-			die("%s.Execute: admission test not understood", typ)
-		}
-		switch callName(c.Fun) {
-		case flag + ".Swap":
-			if !boolArg(c, "true") {
-				die("%s.Execute: Swap argument is not true", typ)
+		cond := unparen(ifs.Cond)
+		if u, ok := cond.(*ast.UnaryExpr); ok && u.Op == token.NOT {
+			// if !j.isRunning.CompareAndSwap(false, true) { return err }: fails exactly when the flag was
+			// already true and then leaves it true -- the same atomic action as Swap(true) observing true
+			cc, ok := unparen(u.X).(*ast.CallExpr)
+			if !ok || callName(cc.Fun) != flag+".CompareAndSwap" || len(cc.Args) != 2 ||
+				callName(cc.Args[0]) != "false" || callName(cc.Args[1]) != "true" {
+				die("%s.Execute: admission test not understood", typ)
 			}
 			usesSwap = true
 			i = 1
-		case flag + ".Load":
-			// load-then-store: if j.isRunning.Load() { return err }; j.isRunning.Store(true)
-			es, ok := body[1].(*ast.ExprStmt)
-			if !ok {
-				die("%s.Execute: expected %s.Store(true) after the Load test", typ, flag)
-			}
-			sc, ok := es.X.(*ast.CallExpr)
-			if !ok || callName(sc.Fun) != flag+".Store" || !boolArg(sc, "true") {
-				die("%s.Execute: expected %s.Store(true) after the Load test", typ, flag)
-			}
-			usesSwap = false
-			i = 2
-		default:
+			cond = nil
+		}
+		c, ok := cond.(*ast.CallExpr)
+		if cond != nil && !ok {
 			die("%s.Execute: admission test not understood", typ)
+		}
+		if cond != nil {
+			switch callName(c.Fun) {
+			case flag + ".Swap":
+				if !boolArg(c, "true") {
+					die("%s.Execute: Swap argument is not true", typ)
+				}
+				usesSwap = true
+				i = 1
+			case flag + ".Load":
+				// load-then-store: if j.isRunning.Load() { return err }; j.isRunning.Store(true)
+				es, ok := body[1].(*ast.ExprStmt)
+				if !ok {
+					die("%s.Execute: expected %s.Store(true) after the Load test", typ, flag)
+				}
+				sc, ok := es.X.(*ast.CallExpr)
+				if !ok || callName(sc.Fun) != flag+".Store" || !boolArg(sc, "true") {
+					die("%s.Execute: expected %s.Store(true) after the Load test", typ, flag)
+				}
+				usesSwap = false
+				i = 2
+			default:
+				die("%s.Execute: admission test not understood", typ)
+			}
 		}
 	}
 	// ---- release and the call of the underlying job ----
